@@ -35,8 +35,8 @@ Val(s) == CASE s = "x"  -> <<"x">>
             [] s = "bs2" -> <<"a", "\\", "\\">>          \* ends in two backslashes
             [] OTHER    -> <<>>
 
-IFSSet(i) == CASE i = "comma" -> {","} [] i = "empty" -> {} [] i = "mb" -> {"U1", ","} [] OTHER -> S!DefaultIFS
-IFSFirst(i) == CASE i = "comma" -> <<",">> [] i = "empty" -> <<>> [] i = "mb" -> <<"U1">> [] OTHER -> <<"SP">>    \* the first CHARACTER of IFS
+IFSSet(i) == CASE i = "comma" -> {","} [] i = "empty" -> {} [] i = "mb" -> {"U1", ","} [] i = "digit" -> {"1", "2"} [] OTHER -> S!DefaultIFS
+IFSFirst(i) == CASE i = "comma" -> <<",">> [] i = "empty" -> <<>> [] i = "mb" -> <<"U1">> [] i = "digit" -> <<"1">> [] OTHER -> <<"SP">>    \* the first CHARACTER of IFS
 
 RECURSIVE JoinWith(_, _)
 JoinWith(vs, sep) == IF Len(vs) = 0 THEN <<>> ELSE IF Len(vs) = 1 THEN vs[1] ELSE vs[1] \o sep \o JoinWith(Tail(vs), sep)
